@@ -24,8 +24,8 @@ ASSUMPTIONS = [
     "strict JSON equality: json.dumps(sort_keys=True) text",
     "array elements (and members of objects inside arrays) avoid bool/float values equal to ints: the third-party jsonpatch library diffs arrays with Python ==",
 ]
-FLOORS = {"quick": {"fragments_applied": 3000, "patches_applied": 2000, "filters_applied": 1500, "glob_patterns": 2000, "chains": 300, "chains_with_descending_reload_prio": 100},
-          "thorough": {"fragments_applied": 150000, "patches_applied": 100000, "filters_applied": 70000, "glob_patterns": 90000, "chains": 15000, "chains_with_descending_reload_prio": 5000}}
+FLOORS = {"quick": {"fragments_applied": 3000, "patches_applied": 2000, "filters_applied": 1500, "glob_patterns": 2000, "chains": 300, "chains_with_descending_reload_prio": 100, "runner_cases": 300, "deploy_uploads": 150},
+          "thorough": {"fragments_applied": 150000, "patches_applied": 100000, "filters_applied": 70000, "glob_patterns": 90000, "chains": 15000, "chains_with_descending_reload_prio": 5000, "runner_cases": 15000, "deploy_uploads": 8000}}
 KEYS = ["a", "b", "c", "a/b", "m~n", "x|y", "*", "0", "Ethernet0", "Ethernet4"]
 SCALARS = [0, 1, 2, True, False, None, 1.0, "s", "xyz", "", "1"]
 
@@ -453,6 +453,91 @@ def check_chain(rng, schema, acc, seed):
                           dict(w, got=files["/etc/x.json"][1], expected="r%d" % winners[0]))
 
 
+def check_runner_and_deploy(seed, acc):
+    """real JSONFragment generators through run_file_generators -> new_json_fragment_files (plain and --acl-safe) ->
+    PCDeployerJob: the uploaded JSON patch applied to what the device has (file absent / {} / a document) gives the merged document"""
+    import types
+    import annet.deploy as AD
+    from annet import api, cli_args
+    from annet.annlib import jsontools
+    from annet.annlib.netdev.views.hardware import HardwareView
+    from annet.generators import run_file_generators
+    from annet.generators.jsonfragment import JSONFragment
+    from annet.types import OldNewResult
+    from vf import harness_gen as H
+    from vf.props import c19
+    c19.setup_connectors()
+    rng = random.Random(seed)
+    schema = ("object", {k: gen_schema(rng, 1) for k in rng.sample(KEYS, rng.randint(2, 4))})
+    x = rng.random()
+    old = None if x < 0.3 else ({} if x < 0.45 else gen_doc(rng, schema))
+    path = "/etc/sonic/config_db.json"
+    specs, gens = [], []
+    for i in range(rng.randint(1, 2)):
+        frag = gen_doc(rng, schema, 0.6)
+        acl = gen_patterns(rng, schema, False)
+        safe = [p for p in acl if rng.random() < 0.5] or acl[:1]
+        acl_v = acl[0] if (len(acl) == 1 and rng.random() < 0.7) else list(acl)
+        safe_v = safe[0] if (len(safe) == 1 and rng.random() < 0.7) else list(safe)
+        specs.append({"fragment": frag, "acl": acl_v, "acl_safe": safe_v, "reload_prio": rng.choice([1, 50, 100])})
+        ns = {"path": lambda self, device, _p=path: _p, "acl": lambda self, device, _a=acl_v: _a, "acl_safe": lambda self, device, _a=safe_v: _a,
+              "run": lambda self, device, _f=frag: iter([json.loads(json.dumps(_f))]), "reload": lambda self, device, _i=i: "reload%d" % _i,
+              "process_scalar_value": lambda self, value: value, "reload_prio": specs[-1]["reload_prio"], "TAGS": []}
+        cls = types.new_class("Frag%d" % i, (JSONFragment,), {}, lambda d, _ns=ns: d.update(_ns))
+        gens.append(cls(storage=H.FakeStorage()))
+    w = {"seed": seed, "op": "runner", "old": old, "generators": specs}
+    docs = [old or {}] + [s_["fragment"] for s_ in specs]
+    if any(has_array_step(p, docs) for s_ in specs for p in ([s_["acl"]] if isinstance(s_["acl"], str) else s_["acl"])):
+        acc.count("runner_skipped_array_step")
+        return
+    dev = H.FakeDevice(HardwareView("PC", "Linux"), pc=True)
+    try:
+        res = run_file_generators(gens, dev)
+        got = {safe: res.new_json_fragment_files({path: old}, safe=safe) for safe in (False, True)}
+    except Exception as e:
+        acc.violation("C13/runner/exception-%s" % type(e).__name__, "running JSON fragment generators raised", dict(w, error=repr(e)[:200]))
+        return
+    acc.count("runner_cases")
+    acc.case(["runner", old, specs], nontrivial=True)
+    for safe in (False, True):
+        exp = old if old is not None else {}
+        for s_ in specs:
+            a = s_["acl_safe"] if safe else s_["acl"]
+            exp = jsontools.apply_json_fragment(exp, s_["fragment"], [a] if isinstance(a, str) else a)
+        if J(got[safe][path][0]) != J(exp):
+            acc.violation("C13/runner/%s-result-differs-from-sequential-merge" % ("acl-safe" if safe else "plain"),
+                          "the document built from the generators (through run_file_generators) is not the sequential merge of their fragments under their %s" % ("safe ACLs" if safe else "ACLs"),
+                          dict(w, got=got[safe][path][0], expected=exp))
+            return
+    # deploy: the uploaded patch reproduces the target on the device
+    orig = AD.get_deployer
+    AD.get_deployer = lambda: c19._Driver()
+    try:
+        job = api.PCDeployerJob(dev, types.SimpleNamespace(acl_safe=False, entire_reload=cli_args.EntireReloadFlag.yes))
+        job.parse_result(OldNewResult(device=dev, old_json_fragment_files={path: old}, new_json_fragment_files=got[False]))
+    except Exception as e:
+        acc.violation("C13/deploy/exception-%s" % type(e).__name__, "PCDeployerJob.parse_result raised on JSON fragment files", dict(w, error=repr(e)[:200]))
+        return
+    finally:
+        AD.get_deployer = orig
+    target = got[False][path][0]
+    up = job.deploy_cmds.get(dev, {"files": {}})["files"].get(path)
+    acc.count("deploy_jobs")
+    if up is None:
+        if J(old if old is not None else None) != J(target) and jsontools.format_json(old) != jsontools.format_json(target):
+            acc.violation("C13/deploy/changed-file-not-uploaded", "the merged document differs from the device's but nothing is uploaded", dict(w, target=target))
+        return
+    acc.count("deploy_uploads")
+    try:
+        after = json.loads(jsontools.apply_patch(None if old is None else json.dumps(old).encode(), up))
+    except Exception as e:
+        acc.violation("C13/deploy/uploaded-patch-does-not-apply", "the uploaded JSON patch cannot be applied to what the device has", dict(w, patch=up.decode()[:400], error=repr(e)[:200]))
+        return
+    if J(after) != J(target):
+        acc.violation("C13/deploy/uploaded-patch-gives-other-document", "applying the uploaded JSON patch on the device does not give the merged document",
+                      dict(w, patch=up.decode()[:400], after=after, target=target))
+
+
 def run_case(seed, acc):
     rng = random.Random(seed)
     schema = ("object", {k: gen_schema(rng, 1) for k in rng.sample(KEYS, rng.randint(2, 4))})
@@ -469,7 +554,10 @@ def run_case(seed, acc):
 
 def run_shard(spec, acc):
     if spec["mode"] == "replay":
-        run_case(spec["witness"]["seed"], acc)
+        if spec["witness"].get("op") == "runner":
+            check_runner_and_deploy(spec["witness"]["seed"], acc)
+        else:
+            run_case(spec["witness"]["seed"], acc)
         return
     tier, k, n = spec["tier"], spec["shard"], spec["nshards"]
     total = 9000 if tier == "quick" else 400000
@@ -479,3 +567,5 @@ def run_shard(spec, acc):
         run_case(s, acc)
         if j < 2:
             acc.sample({"seed": s})
+        if j % 10 == 0:
+            check_runner_and_deploy(rng.randrange(1 << 48), acc)
